@@ -432,10 +432,10 @@ impl Check for C08 {
         let items = ["out_rpc", "in_rpc", "in_rpc2", "dial_blackhole", "bg_dial"];
         let concs: Vec<Vec<&str>> = vec![vec![], vec!["connect"], vec!["rpc"], vec!["shutdown"], vec!["sync"], vec!["connect", "rpc", "shutdown", "sync"]];
         for peers in 0..=2u64 {
-            for inflight in subsets(&items, tier.pick(2, 3)) {
+            for inflight in subsets(&items, 3) {
                 for action in ["shutdown", "drop"] {
                     for (ci, conc) in concs.iter().enumerate() {
-                        if tier == Tier::Quick && ci != 0 && ci != 5 && inflight.len() > 1 {
+                        if tier == Tier::Quick && ci != 0 && ci != 5 && inflight.len() > 2 {
                             continue;
                         }
                         u.push(json!({"peers":peers,"inflight":inflight,"concurrent":conc,"action":action,"crash":"none","bound":0}));
@@ -443,7 +443,7 @@ impl Check for C08 {
                 }
                 // crash points
                 for crash in ["rt_drop_before", "rt_drop_after", "kill_ep_driver", "socket_error", "abort_handlers", "abort_pending", "abort_handlers_then_drop", "abort_pending_then_drop", "kill_ep_driver_then_drop", "kill_conn_drivers_then_drop"] {
-                    if tier == Tier::Quick && inflight.len() > 1 {
+                    if tier == Tier::Quick && inflight.len() > 2 {
                         continue;
                     }
                     u.push(json!({"peers":peers,"inflight":inflight,"concurrent":[],"action":"shutdown","crash":crash,"bound":0}));
